@@ -3,7 +3,9 @@
 use std::io::{BufRead, Write};
 use std::panic::{catch_unwind, AssertUnwindSafe};
 
+mod autdump;
 mod e_charset;
+mod e_regex;
 mod util;
 
 fn main() {
@@ -22,6 +24,7 @@ fn main() {
         let toks: Vec<&str> = line.split_whitespace().collect();
         let r = catch_unwind(AssertUnwindSafe(|| match engine {
             "charset" => e_charset::run(&toks),
+            "regex" => e_regex::run(&toks),
             _ => panic!("unknown engine"),
         }));
         let s = match r {
